@@ -48,6 +48,12 @@ CLAIMS["C14"] = dict(
    note=TRUST + ". Assumed: the bbolt cursor model (sorted keys, First/Last/Next/Prev/Seek), that typed set buckets contain only keys carrying the field type tag, the byte-level meaning of PrependFieldType (prepend/untag axioms). treeCursor (llrb in-order walk) has safety obligations only; its enumeration order is not proved. IteratorMatchingAllOf/AnyOf closures and stackedCursor are not under contract.",
    technique="contract-based deductive verification: interface-level contract with ghost views, impl obligations per cursor kind, loop invariants, SMT")
 
+CLAIMS["C13"] = dict(
+   text="Every typed setter of TypedBucket (string, *string, bool, int32, int64, float64, time, *time, nil) is proved to store exactly the tag byte followed by the little-endian / marshalled payload under the field name, to do nothing at all when an error is pending or the field checker does not select the field, and to leave the bucket unchanged when the write fails; every getter is proved to decode that layout. Round-trip lemmas (Go functions behind the verif tag that compose a setter with a getter and are verified against the two contracts only) give: each type reads back equal, int32 widens to int64, times read back as the same instant, null reads back null from every getter and stays distinct from the empty string, a write through a checker that does not select the field (or to another field) is invisible to getters. String lists: SetStringList is proved to leave exactly the tagged elements as the sub-bucket's key set (loop invariant), ReadStringList/GetStringList to return the keys in byte order without tag; lemma: what is read back is strictly sorted, contains only written elements and every written element. Containers: setMarshaled/getMarshaled per dynamic type (int widens to int64, float32 to float64), PutList/GetList element-wise for scalar elements (loop invariants, size marker), PutMap/GetMap entry-wise for scalar entries (map-iteration ghost: every key produced exactly once), with lemmas for lists and maps of scalars; PersistContext setters pass the context's field checker; UpdateBaseValues touches only updatedAt and tags. Compound keys: EncodeByteSlice = varint length then bytes, EncodeStringSlice = concatenation (loop invariant), DecodeNext/DecodeStringSlice decode every such encoding (quantified loop invariant); lemmas: decode(encode(L)) = L for every list with elements <= 4096 bytes, and equal encodings imply equal lists.",
+   design="5/C13",
+   note=TRUST + ". Assumed (listed per run): the byte-string theory axioms (prepend/untag, concat, sub-string, byte1), encoding/binary little-endian and varint contracts, math.Float64bits as a bijection on bit patterns (floats are modelled as reals, so NaN payloads and -0 are outside the model), time.MarshalBinary/UnmarshalBinary inverse on instants, the bbolt bucket model (Put/Get/Delete/CreateBucket, cursor enumerates the key set in byte order, a freshly created bucket is empty, a bucket has finitely many keys), stored payloads under a bool/int/float tag have the size the setters write. Not proved: nested maps/lists inside containers (only frames and error propagation), lists longer than 2^31-1, GetMap/GetList on buckets with a pending error.",
+   technique="contract-based deductive verification: byte-level postconditions on setters/getters, loop invariants, ghost map-iteration set, lemma functions composed from contracts, SMT (z3/cvc5)")
+
 NA = {
 }
 
@@ -84,7 +90,7 @@ def main():
       "setup_cmd": "cd /verif/engine && GOFLAGS=-mod=vendor GOPROXY=off GOSUMDB=off GOTOOLCHAIN=local go build -o /verif/bin/govc ./cmd/govc",
       "hooks": {
         "guard": "verif",
-        "enable": "govc loads /repo with -tags=verif; the tag only adds the comment-only contract files */zz_verif_contracts.go (no executable code)",
+        "enable": "govc loads /repo with -tags=verif; the tag adds the comment-only contract files */zz_verif_contracts*.go and boltz/zz_verif_lemmas.go (lemma functions that compose real setters and getters; never called, not compiled without the tag)",
         "baseline_off_cmd": "cd /repo && GOFLAGS=-mod=mod GOPROXY=off GOSUMDB=off go test -vet=off -count=1 -timeout 25m ./...",
         "source_commits": hook_commits,
         "add_only": True
